@@ -30,7 +30,7 @@ def run(ctx):
         sys.exit(1)
     quick = ctx.tier == "quick"
     samples = []
-    rt = ctx.tlc_design("fn/TextEncTable", "cfg/TextEncTable.%s.cfg" % ("quick" if quick else "thorough"), timeout=2400, tag="table")
+    rt = ctx.tlc_design("fn/TextEncTable", "cfg/TextEncTable.%s.cfg" % ("quick" if quick else "thorough"), timeout=2400, tag="table", workers=8)
     ht = ctx.harness([b, "table", rt.path], timeout=1500)
     if rt.nexports < 24 or (ht["summary"].get("docs") != rt.nexports and not ht["violations"]):
         raise Infra("table: replayed %s of %d exported documents" % (ht["summary"].get("docs"), rt.nexports))
